@@ -52,7 +52,7 @@ fn segmentation_scenario(kind: Kind, hello_cuts: &[usize], replies: &[Vec<u8>], 
             steps.push(Step::SleepMs(SILENCE_MS));
         }
     }
-    Scenario { kind, steps, requests: replies.len(), extra_request: false, label, bad_credentials: false }
+    Scenario { kind, steps, requests: replies.len(), extra_request: false, label, bad_credentials: false, password: crate::rsim::SSH_PASSWORD.to_string() }
 }
 
 fn oracle_c06(sc: &Scenario, o: &Outcome) -> Verdict {
@@ -336,6 +336,7 @@ fn disconnect_scenario(kind: Kind, point: Point, outstanding: usize, close: Clos
         extra_request: extra,
         label: format!("{} at {point:?}, {requests} outstanding", close_name(kind, close)),
         bad_credentials: false,
+        password: crate::rsim::SSH_PASSWORD.to_string(),
     }
 }
 
